@@ -542,6 +542,29 @@ class TemplateASTTransformer(ASTTransformer):
             self.locals[-1].update(self._extract_names(node))
         return ASTTransformer.visit_ImportFrom(self, node)
 
+    def _bound_names(self, body):
+        """Return the names bound anywhere in the body of a function; as in
+        Python they are local to the whole function, not only to the code
+        that follows the binding.
+        """
+        names = set()
+        todo = list(body)
+        while todo:
+            node = todo.pop()
+            if isinstance(node, (_ast.FunctionDef, _ast.ClassDef)):
+                names.add(node.name)
+                continue # the body is a scope of its own
+            if isinstance(node, (_ast.Lambda, _ast.ListComp,
+                                 _ast.GeneratorExp)):
+                continue
+            if isinstance(node, _ast.Name):
+                if not isinstance(node.ctx, _ast.Load):
+                    names.add(node.id)
+            elif isinstance(node, (_ast.Import, _ast.ImportFrom)):
+                names.update(self._extract_names(node))
+            todo.extend(_ast.iter_child_nodes(node))
+        return names
+
     def _visit_function(self, node):
         # Parameter defaults, decorators and annotations are evaluated in the
         # enclosing scope; only the body sees the parameters as local names
@@ -556,7 +579,10 @@ class TemplateASTTransformer(ASTTransformer):
         for name in clone._fields:
             if name != 'body' and hasattr(node, name):
                 setattr(clone, name, visit(getattr(node, name)))
-        self.locals.append(self._extract_names(node.args))
+        names = self._extract_names(node.args)
+        if isinstance(node.body, list):
+            names |= self._bound_names(node.body)
+        self.locals.append(names)
         try:
             clone.body = visit(node.body)
         finally:
